@@ -13,7 +13,6 @@ from geometer.utils import (
     is_multiple,
     is_numerical_dtype,
     is_numerical_scalar,
-    normalize_index,
     posify_index,
     sanitize_index,
 )
@@ -241,41 +240,70 @@ class Tensor:
         return f"{self.__class__.__name__}({self.array.tolist()})"
 
     def _get_index_mapping(self, index: TensorIndex) -> list[int | None]:
-        normalized_index = normalize_index(index, self.shape)  # type: ignore[no-untyped-call]
-        advanced_indices = []
-        index_mapping: list[int | None] = list(range(self.rank))
-        i = 0
-        for ind in normalized_index:
-            # axis with integer index will be removed
-            if isinstance(ind, int):
-                index_mapping.pop(i)
-                continue
+        """Maps the axes of ``self.array[index]`` to the axes of ``self.array`` they come from (None for new axes)."""
+        if not isinstance(index, tuple):
+            index = (index,)
 
-            # new axis inserted by None index
+        # classify the entries of the index: kind, number of axes consumed, number of dimensions of an advanced index
+        items: list[tuple[str, int, int]] = []
+        for ind in index:
             if ind is None:
-                index_mapping.insert(i, None)
+                items.append(("newaxis", 0, 0))
+            elif ind is Ellipsis:
+                items.append(("ellipsis", 0, 0))
+            elif isinstance(ind, slice):
+                items.append(("slice", 1, 0))
+            else:
+                a = np.asarray(ind)
+                if a.dtype == bool:
+                    # a boolean mask consumes as many axes as it has dimensions and yields a single one
+                    items.append(("array", a.ndim, 1))
+                elif a.ndim == 0:
+                    items.append(("int", 1, 0))
+                else:
+                    items.append(("array", 1, a.ndim))
 
-            # advanced indexing
-            elif isinstance(ind, np.ndarray):
-                advanced_indices.append(i)
+        n_consumed = sum(consumed for _, consumed, _ in items)
+        has_array = any(kind == "array" for kind, _, _ in items)
 
-            i += 1
+        # as soon as an array is present, integers are advanced indices as well
+        advanced = [k for k, (kind, _, _) in enumerate(items) if kind == "array" or (kind == "int" and has_array)]
+        n_broadcast = max((items[k][2] for k in advanced), default=0)
 
-        if len(advanced_indices) == 0:
+        index_mapping: list[int | None] = []
+        first_advanced = None
+        axis = 0
+        for k, (kind, consumed, _) in enumerate(items):
+            if kind == "newaxis":
+                index_mapping.append(None)
+            elif kind == "ellipsis":
+                n = self.rank - n_consumed
+                index_mapping.extend(range(axis, axis + n))
+                axis += n
+            elif kind == "slice":
+                index_mapping.append(axis)
+                axis += 1
+            else:
+                # axes with integer or array indices are removed
+                if k in advanced and first_advanced is None:
+                    first_advanced = len(index_mapping)
+                axis += consumed
+
+        # axes that are not indexed are kept
+        index_mapping.extend(range(axis, self.rank))
+
+        if len(advanced) == 0:
             return index_mapping
 
-        b = np.broadcast(*[normalized_index[i] for i in advanced_indices])
-        a0, a1 = advanced_indices[0], advanced_indices[-1]
+        new_indices: list[int | None] = [None] * n_broadcast
 
-        if advanced_indices != list(range(a0, a1 + 1)):
-            # create advanced indices in front
-            for i in advanced_indices:
-                index_mapping.remove(i)
-            new_indices: list[int | None] = [None] * b.ndim
+        if advanced != list(range(advanced[0], advanced[-1] + 1)):
+            # advanced indices separated by a slice, None or Ellipsis: the broadcast axes come first
             return new_indices + index_mapping
-        else:
-            # replace indices with broadcast shape
-            return index_mapping[:a0] + [None] * b.ndim + index_mapping[a1 + 1 :]
+
+        # adjacent advanced indices are replaced by the broadcast axes
+        assert first_advanced is not None
+        return index_mapping[:first_advanced] + new_indices + index_mapping[first_advanced:]
 
     def __getitem__(self, index: TensorIndex) -> Tensor | np.generic:
         result = self.array[index]
